@@ -215,11 +215,20 @@ fn from_parts_case(out: &mut Out, rng: &mut Rng, toks: &[String]) {
     out.case("li_from_parts", &refs, || li_from_parts(&refs));
 }
 
+pub fn par_inputs() -> Vec<Vec<u8>> {
+    let mut v: Vec<Vec<u8>> = crate::corpus::REALWORLD.iter().map(|s| s.as_bytes().to_vec()).collect();
+    v.extend(crate::corpus::REGRESS.iter().map(|s| s.as_bytes().to_vec()));
+    for s in ["en", "EN_latn_us", "de-CH-1996", "und", "sr-Cyrl-RS", "x", "", "en--US", "zh-Hant-TW-nedis-biske", "abcdefghi", "e\u{301}n"] { v.push(s.as_bytes().to_vec()); }
+    v
+}
+
 pub fn run(out: &mut Out, tier: &str, rng: &mut Rng) {
     let thorough = tier == "thorough";
     let full = gen::tokens_full();
     let red = gen::tokens_reduced();
     let firsts = gen::first_tokens();
+    out.comment("schedules: the corpus parsed from several threads at once");
+    par_stage(out, "par_langid", par_inputs(), langid, if thorough { 400 } else { 40 });
     out.comment("G2: token sequences");
     for f in firsts.iter() {
         parse_ops(out, f);
